@@ -6,6 +6,9 @@ CONSTANTS
   Wipes = {256, 0, 119}
   Variants = {"asis", "fixed"}
   Cuts = FALSE
+  SectorSize = 32
+  MaxFaults = 1
+  MaxRetry = 1
   Kinds = {"T2", "T1S", "T1D", "T512"}
   Sizes = {1, 2, 3, 5}
   Pads = {0, 1, 2, 3}
@@ -21,4 +24,6 @@ INVARIANT ConfinedButFormat
 INVARIANT FxUnitsInArea
 INVARIANT UnitsButFormat
 INVARIANT LockOneWay
+INVARIANT CoherentButFormat
+INVARIANT SectorSync
 CHECK_DEADLOCK FALSE
